@@ -47,6 +47,8 @@ enum H {
     UpdM(usize, i64, i64),
     RemM(usize, i64),
     ClrM(usize),
+    /// transform_entry(l, k, |v| Some(v.unwrap_or(0) + d))
+    TrnM(usize, i64, i64),
     GetM(usize, i64),
     Seq(Box<H>, Box<H>),
     /// a.and_then(|()| b)
@@ -165,6 +167,10 @@ fn build(sh: &Shared, ctx: HandlerContext<TestAgent>, h: &H) -> BoxEventHandler<
         H::UpdM(l, k, v) => ctx.update(ML[*l], *k, *v).boxed(),
         H::RemM(l, k) => ctx.remove(ML[*l], *k).boxed(),
         H::ClrM(l) => ctx.clear(ML[*l]).boxed(),
+        H::TrnM(l, k, d) => {
+            let d = *d;
+            ctx.transform_entry(ML[*l], *k, move |v: Option<&i64>| Some(v.copied().unwrap_or(0) + d)).boxed()
+        }
         H::GetM(l, k) => {
             let (l, k) = (*l, *k);
             ctx.get_entry(ML[l], k).and_then(move |v: Option<i64>| ctx.effect(move || trace.lock().push(Ev::GotM(l, k, v)))).boxed()
@@ -571,7 +577,11 @@ impl<'a> Gen<'a> {
             }
             6 if rank > 3 => {
                 let l = self.rng.usize_below(rank - 3);
-                H::UpdM(l, self.rng.range(0, 2) as i64, self.rng.range(1, 9) as i64)
+                if self.rng.below(3) == 0 {
+                    H::TrnM(l, self.rng.range(0, 2) as i64, self.rng.range(1, 9) as i64)
+                } else {
+                    H::UpdM(l, self.rng.range(0, 2) as i64, self.rng.range(1, 9) as i64)
+                }
             }
             7 if rank > 3 => {
                 let l = self.rng.usize_below(rank - 3);
@@ -699,6 +709,7 @@ fn coq_h(h: &H) -> String {
         H::UpdM(l, k, v) => format!("(HUpdM {} {} {})", l, z(*k), z(*v)),
         H::RemM(l, k) => format!("(HRemM {} {})", l, z(*k)),
         H::ClrM(l) => format!("(HClrM {})", l),
+        H::TrnM(l, k, d) => format!("(HTrnM {} {} {})", l, z(*k), z(*d)),
         H::GetM(l, k) => format!("(HGetM {} {})", l, z(*k)),
         H::Seq(a, b) => format!("(HSeq {} {})", coq_h(a), coq_h(b)),
         H::Then(a, b) => format!("(HThen {} {})", coq_h(a), coq_h(b)),
